@@ -11,7 +11,7 @@ for id in $ids; do
   [ -f seeded/$id/patch.diff ] || continue
   git -C /repo apply /verif/seeded/$id/patch.diff || { echo "$id patch does not apply" | tee -a seeded/RESULTS.txt; continue; }
   prop=${id%%_*}  # C07_r2 -> C07
-  ./vf check $prop > /tmp/run_seeded_$id.log 2>&1; code=$?
+  VERIF_SCRATCH_OUT=/tmp/vf_scratch ./vf check $prop > /tmp/run_seeded_$id.log 2>&1; code=$?
   git -C /repo checkout -- .
   obs=$(grep -A1 '^VIOLATION' /tmp/run_seeded_$id.log | grep 'obligation' | sed 's/^ *obligation \([^ ]*\).*/\1/' | sort -u | tr '\n' ' ')
   echo "$id exit=$code violated: $obs" | tee -a seeded/RESULTS.txt
